@@ -84,6 +84,7 @@ type Trace struct {
 	NEv     int                    `json:"nev"`   // events counted by the measured run
 	NumTab  []NumEnt               `json:"numtab"`
 	Out     []int                  `json:"out"` // all bytes written to the sink
+	Raw     []int                  `json:"raw"` // the bytes the encoder itself wrote (Out additionally holds the driver's separators between JSON texts)
 	Extra   map[string]interface{} `json:"extra,omitempty"`
 }
 
